@@ -297,6 +297,131 @@ theorem borehole_flow_constant_along_list (c : Copy) (v rho : Rat) (cs1 cs2 : Li
   ⟨_, _, initializeGhe_closed c .borehole v cs1 rho (by decide) h1,
     initializeGhe_closed c .borehole v cs2 rho (by decide) h2, rfl, rfl, rfl, rfl⟩
 
+/-! ### call histories on one manager (`GHEManager.set_design`, design.py) -/
+
+/-- `set_design` read off manager.py: refuse an unknown flow-type string, look at the geometric
+    constraints, then ALWAYS build a new `Design<Method>(flow_rate, …, self._geometric_constraints, …,
+    flow_type=flow_type)` and return 0 — no path keeps or patches an existing design — and nothing else in
+    manager.py assigns `_design` or one of its attributes.  `Flow.setDesign` is the model of this skeleton. -/
+theorem set_design_skeleton :
+    Gen.setDesignSkeleton =
+      [
+      "flow_type_str = flow_type_str.upper()",
+      "if flow_type_str == FlowConfigType.SYSTEM.name",
+      ".flow_type = FlowConfigType.SYSTEM",
+      "else",
+      ".if flow_type_str == FlowConfigType.BOREHOLE.name",
+      "..flow_type = FlowConfigType.BOREHOLE",
+      ".else",
+      "..message = <text>",
+      "..if throw",
+      "...raise ValueError",
+      "..return 1",
+      "if self._geometric_constraints.type is None",
+      ".message = <text>",
+      ".if throw",
+      "..raise ValueError",
+      ".return 1",
+      "if self._geometric_constraints.type == DesignGeomType.NEARSQUARE",
+      ".self._design = DesignNearSquare(v_flow=flow_rate, geometric_constraints=self._geometric_constraints, flow_type=flow_type)",
+      "else",
+      ".if self._geometric_constraints.type == DesignGeomType.RECTANGLE",
+      "..self._design = DesignRectangle(v_flow=flow_rate, geometric_constraints=self._geometric_constraints, flow_type=flow_type)",
+      ".else",
+      "..if self._geometric_constraints.type == DesignGeomType.BIRECTANGLE",
+      "...self._design = DesignBiRectangle(v_flow=flow_rate, geometric_constraints=self._geometric_constraints, flow_type=flow_type)",
+      "..else",
+      "...if self._geometric_constraints.type == DesignGeomType.BIZONEDRECTANGLE",
+      "....self._design = DesignBiZoned(v_flow=flow_rate, geometric_constraints=self._geometric_constraints, flow_type=flow_type)",
+      "...else",
+      "....if self._geometric_constraints.type == DesignGeomType.BIRECTANGLECONSTRAINED",
+      ".....self._design = DesignBiRectangleConstrained(v_flow=flow_rate, geometric_constraints=self._geometric_constraints, flow_type=flow_type)",
+      "....else",
+      ".....if self._geometric_constraints.type == DesignGeomType.ROWWISE",
+      "......self._design = DesignRowWise(v_flow=flow_rate, geometric_constraints=self._geometric_constraints, flow_type=flow_type)",
+      ".....else",
+      "......message = <text>",
+      "......if throw",
+      ".......raise ValueError",
+      "......return 1",
+      "return 0"
+      ] ∧
+    Gen.designWriters = ["GHEManager.__init__: self._design", "GHEManager.set_design: self._design"] :=
+  ⟨rfl, rfl⟩
+
+/-- design.py carries the pair unchanged: `DesignBase.__init__` stores `V_flow = v_flow`,
+    `flow_type = flow_type`; every `Design*.__init__` hands both to it and does not overwrite them; every
+    `find_design` constructs its search class from `self.V_flow` and `flow_type=self.flow_type`. -/
+theorem design_flow_wiring :
+    Gen.designFlowWiring =
+      [
+      ("DesignBase.__init__", ["param[1]=v_flow", "param[12]=flow_type", "self.V_flow=v_flow", "self.flow_type=flow_type", "self.geometric_constraints=geometric_constraints"]),
+      ("DesignNearSquare", ["bases=DesignBase", "super.v_flow=v_flow", "super.flow_type=flow_type", "search=Bisection1D", "search.v_flow=self.V_flow", "search.flow_type=self.flow_type"]),
+      ("DesignRectangle", ["bases=DesignBase", "super.v_flow=v_flow", "super.flow_type=flow_type", "search=Bisection1D", "search.v_flow=self.V_flow", "search.flow_type=self.flow_type"]),
+      ("DesignBiRectangle", ["bases=DesignBase", "super.v_flow=v_flow", "super.flow_type=flow_type", "search=Bisection2D", "search.v_flow=self.V_flow", "search.flow_type=self.flow_type"]),
+      ("DesignBiZoned", ["bases=DesignBase", "super.v_flow=v_flow", "super.flow_type=flow_type", "search=BisectionZD", "search.v_flow=self.V_flow", "search.flow_type=self.flow_type"]),
+      ("DesignBiRectangleConstrained", ["bases=DesignBase", "super.v_flow=v_flow", "super.flow_type=flow_type", "search=BisectionZD", "search.v_flow=self.V_flow", "search.flow_type=self.flow_type"]),
+      ("DesignRowWise", ["bases=DesignBase", "super.v_flow=v_flow", "super.flow_type=flow_type", "search=RowWiseModifiedBisectionSearch", "search.v_flow=self.V_flow", "search.flow_type=self.flow_type"])
+      ] := by
+  decide
+
+/-- `set_design_last_wins`: after ANY history of `set_design` calls on a manager whose geometric
+    constraints are set (valid and refused calls in any order, throwing or not), the design carries the
+    flow rate and flow type of the last call that named a flow type; refused calls change nothing. -/
+theorem set_design_last_wins (m : Manager) (k : Nat) (hk : k < nMethods) (hg : m.geom = some k)
+    (calls : List Call) :
+    (afterCalls m calls).design =
+      match (calls.filter validCall).getLast? with
+      | some c => some (c.1, c.2.1, k)
+      | none => m.design :=
+  afterCalls_design m k hk hg calls
+
+/-- Hence the flow state of every candidate field is independent of the history: two managers (same
+    design method) whose histories end — refused calls aside — with the same `(flow, type)` give every
+    field the flow state of that specification alone, i.e. of a fresh manager that got only that call. -/
+theorem set_design_history_independent (m m' : Manager) (k : Nat) (hk : k < nMethods)
+    (hg : m.geom = some k) (hg' : m'.geom = some k) (calls calls' : List Call) (c : Call)
+    (h : (calls.filter validCall).getLast? = some c) (h' : (calls'.filter validCall).getLast? = some c)
+    (cp : Copy) (cs : List (Rat × Rat)) (rho : Rat) :
+    (afterCalls m calls).design = (afterCalls m' calls').design ∧
+    designFlow (afterCalls m calls) cp cs rho = designFlow (afterCalls m' calls') cp cs rho ∧
+    designFlow (afterCalls m calls) cp cs rho = initializeGhe cp c.2.1 c.1 cs rho ∧
+    designFlow (afterCalls m calls) cp cs rho = designFlow (afterCalls { geom := some k, design := none } [c]) cp cs rho := by
+  have e := set_design_last_wins m k hk hg calls
+  have e' := set_design_last_wins m' k hk hg' calls'
+  rw [h] at e; rw [h'] at e'
+  have hv : validCall c = true := by
+    have := List.mem_of_getLast? h
+    exact (List.mem_filter.mp this).2
+  have e0 := set_design_last_wins { geom := some k, design := none } k hk rfl [c]
+  rw [show ([c].filter validCall).getLast? = some c from lastValid_snoc [] c hv] at e0
+  simp only at e e' e0
+  refine ⟨by rw [e, e'], ?_, ?_, ?_⟩ <;> simp only [designFlow, e, e', e0]
+
+/-- The equivalence on a re-used manager: `set_design(v, "borehole")`, then — after anything refused —
+    `set_design(N·v, "system")` on the SAME manager: the N-borehole field gets the identical flow state
+    (hence the same R_b* and temperatures) under the second design as under the first. -/
+theorem reused_manager_equiv (m : Manager) (k : Nat) (hk : k < nMethods) (hg : m.geom = some k)
+    (pre : List Call) (v : Rat) (t t' : Bool) (cp cp' : Copy) (cs : List (Rat × Rat)) (rho : Rat) (hcs : cs ≠ []) :
+    designFlow (afterCalls m (pre ++ [(v, .borehole, t)])) cp cs rho =
+      designFlow (afterCalls m ((pre ++ [(v, .borehole, t)]) ++ [((cs.length : Rat) * v, .system, t')])) cp' cs rho := by
+  have e1 := set_design_last_wins m k hk hg (pre ++ [(v, .borehole, t)])
+  have e2 := set_design_last_wins m k hk hg ((pre ++ [(v, .borehole, t)]) ++ [((cs.length : Rat) * v, .system, t')])
+  rw [lastValid_snoc _ _ (by simp [validCall])] at e1 e2
+  simp only at e1 e2
+  simp only [designFlow, e1, e2]
+  exact borehole_system_equiv cp cp' v cs rho hcs
+
+/-- What a single call does when it does not store: an unknown flow type is refused (`ValueError` or
+    return code 1) and a call before any geometry is set raises (attribute access on `None`); the manager
+    is unchanged in both cases. -/
+theorem set_design_refusals (m : Manager) (v : Rat) (ft : FlowType) (throw : Bool) :
+    setDesign m v .other throw = (m, if throw then .raised .valueError else .ret 1) ∧
+    (ft ≠ .other → m.geom = none → setDesign m v ft throw = (m, .raised .other)) := by
+  refine ⟨by simp [setDesign], ?_⟩
+  intro hft hg
+  simp [setDesign, hft, hg]
+
 /-! ### non-vacuity: concrete runs of the generated code -/
 
 /-- 0.1 L/s per borehole on 3 boreholes, ρ = 998: 0.3 L/s system, ṁ = 0.0998 kg/s. -/
@@ -328,6 +453,17 @@ example : (retrieveFlow .bisection1D .system (156 / 5) (field 1) 1000,
 /-- The candidate-list theorem has a model: sizes 1 < 2 < 4. -/
 example : ([field 1, field 2, field 4].map List.length).Pairwise (· < ·) ∧
     ∀ f ∈ [field 1, field 2, field 4], f ≠ [] := by decide
+
+/-- A history on one manager: refused call, 0.3 borehole, 4.2 system, refused again → (4.2, system). -/
+example : (afterCalls { geom := some 3, design := none }
+    [(1, .other, false), (3 / 10, .borehole, true), (21 / 5, .system, true), (7, .other, false)]).design =
+    some (21 / 5, .system, 3) := by decide +kernel
+
+/-- … and the 6-borehole field then gets 4.2/6 L/s per borehole, not 4.2. -/
+example : designFlow (afterCalls { geom := some 3, design := none } [(3 / 10, .borehole, true), (21 / 5, .system, true)])
+    .bisection1D (field 6) 1000 =
+    .ok { vFlowSystem := 21 / 5, mFlowG := 7 / 10, vFlowBorehole := 7 / 10, mFlowGhe := 7 / 10, mFlowBhe := 7 / 10, nbh := 6 } := by
+  decide +kernel
 
 /-- Error branches are reachable. -/
 example : retrieveFlow .rowWise .other 1 (field 2) 1000 = .error .valueError ∧
